@@ -14,7 +14,7 @@ LEVEL = "exploration"
 TECHNIQUE = "Hypothesis-generated screens/masks/chunk counts/batches with a spying Scorer; multiset-coverage and selection-validity oracles; CLI differential with SizeScorer"
 RULE = (
     "screens with 1..8 plates (arity 1..2, duplicate conditions across plates), any plate-atomic mask incl. nothing/everything observed, "
-    "n_chunks in 1..plates+3, batch of 0..3 unobserved plate ids in any order with repeats, per-plate scores from {-inf,0,1,1,2.5} U floats U near-ties (distinct values agreeing to 1e-10 .. one ulp) "
+    "n_chunks in 1..plates+3, batch of 0..3 unobserved plate ids in any order with repeats (handed over as list, tuple, set, frozenset, dict keys or numpy integers), per-plate scores from {-inf,0,1,1,2.5} U floats U near-ties (distinct values agreeing to 1e-10 .. one ulp) "
     "(ties forced), chunk files combined in a drawn order, policy None or KPerSample(k); 1 in 4 cases through the calculate_scores / "
     "select_next_plate CLIs. Non-trivial = (n_chunks>=2 and non-empty batch) or ties at the minimum or n_chunks > candidates. distinct = distinct case JSON."
 )
@@ -114,7 +114,10 @@ def check_case(case):
     spy = Spy()
     holders = []
     for c in range(n_chunks):
-        h = score_chunk(scorer=spy, thetas=holder, screen=screen, distance_matrix=dm, rng=np.random.default_rng(0), n_chunks=n_chunks, chunk_index=c, batch_plate_ids=list(batch) if (batch or c % 2) else None)
+        if batch or c % 2:
+            h, _kind = S.call_with_container(lambda b_: score_chunk(scorer=spy, thetas=holder, screen=screen, distance_matrix=dm, rng=np.random.default_rng(0), n_chunks=n_chunks, chunk_index=c, batch_plate_ids=b_), batch, S.CONTAINERS[(case["order_seed"] + c) % len(S.CONTAINERS)] if batch else "list")
+        else:
+            h = score_chunk(scorer=spy, thetas=holder, screen=screen, distance_matrix=dm, rng=np.random.default_rng(0), n_chunks=n_chunks, chunk_index=c, batch_plate_ids=None)
         holders.append(h)
     handed = [pid for call in spy.calls for pid in call]
     require(sorted(handed) == candidates, "scored.exactly_candidates_once", lambda: "plates handed to the scorer over all chunks %r; unobserved plates not in the batch %r (batch %r, n_chunks %d)" % (sorted(handed), candidates, batch, n_chunks))
@@ -165,7 +168,7 @@ def check_case(case):
             allowed_ = [a_ for a_ in allowed_ if a_ in set(candidates)]  # only plates that were scored can be chosen
             if pol is not None and len(allowed_) != len(al):
                 return allowed_, None  # the policy allows a plate without a score: outside this property's precondition
-            chosen_ = select_next_plate(scores=combined, screen=screen, policy=pol, batch_plate_ids=list(batch_ids), rng=np.random.default_rng(2))
+            chosen_, _kind = S.call_with_container(lambda b_: select_next_plate(scores=combined, screen=screen, policy=pol, batch_plate_ids=b_, rng=np.random.default_rng(2)), batch_ids, S.CONTAINERS[(case["order_seed"] // 3 + len(batch_ids)) % len(S.CONTAINERS)])
             if not allowed_:
                 require(chosen_ is None, tag + ".none_iff_nothing_allowed", lambda: "plate %r returned although no plate is allowed" % (None if chosen_ is None else int(chosen_.plate_id)))
                 return allowed_, None
